@@ -85,6 +85,7 @@ func main() {
 		os.WriteFile(filepath.Join(*verif, "replay", "canary-failure.txt"), []byte(msg), 0o644)
 		os.Exit(1)
 	}
+	os.Remove(filepath.Join(*verif, "replay", "canary-failure.txt"))
 	if *canaryOnly {
 		fmt.Println("canaries ok")
 		return
